@@ -501,6 +501,21 @@ Definition sp_offer_temp (c : cfg) (st : astate) (nx : N) (v : nat) (idx : optio
   | None => None
   end.
 
+(** push / insert of a lazy clone of a value the CALLER owns (a user-defined cloneable value of the element
+    type): the caller's value is created first and destroyed afterwards whether or not the offer is taken; a
+    taken offer clones it exactly once *)
+Definition sp_offer_userlazy (c : cfg) (st : astate) (nx : N) (v : nat) (idx : option N) : option sres :=
+  match get_a v st with
+  | Some a =>
+      let t := tok c nx in
+      let n := tok c (nx + 1) in
+      match put_value c a idx n with
+      | inl xs' => Some (ok_res [] (EClone t n :: drop_ev c t) (set_a v (Some (with_xs a xs')) st) (nx + 2))
+      | inr p => Some (panic_res p (drop_ev c t) st (nx + 1))
+      end
+  | None => None
+  end.
+
 (** the fragment: by-value or boxed replacement values, all of the right type, honest size hint *)
 Lemma sp_splice_inv c st nx v sb eb pat f rk n wrong_at claimed r :
   sp_splice c st nx v sb eb pat f rk n wrong_at claimed = Some r ->
@@ -532,6 +547,7 @@ Definition spec_step (c : cfg) (st : astate) (nx : N) (o : op) : option sres :=
            | Erased, SWrong k | Erased, SBoxWrong k => sp_offer_wrong c st nx v k
            | _, SLazy _ src sidx => sp_offer_lazy c st nx v None src sidx
            | Erased, STemp src k sidx => sp_offer_temp c st nx v None src k sidx
+           | Erased, SLazyUser _ => sp_offer_userlazy c st nx v None
            | _, _ => None
            end
   | OInsert a v idx s =>
@@ -542,6 +558,7 @@ Definition spec_step (c : cfg) (st : astate) (nx : N) (o : op) : option sres :=
                sp_offer_wrong c st nx v k
            | _, SLazy _ src sidx => sp_offer_lazy c st nx v (Some idx) src sidx
            | Erased, STemp src k sidx => sp_offer_temp c st nx v (Some idx) src k sidx
+           | Erased, SLazyUser _ => sp_offer_userlazy c st nx v (Some idx)
            | _, _ => None
            end
   | OWrite _ v idx => sp_write c st nx v idx
